@@ -77,6 +77,41 @@ def systematic_pool():
     return P
 
 
+def operator_product():
+    """every unary operator of the notation applied to every kind of operand (well-formed combinations only: no repetition of a nullable
+    item, no lookahead / forced over an operand that can succeed with a falsy value)"""
+    P = {}
+    sub = Rule([Alt([A, B], "('ab',)"), Alt([A], "('a',)")])
+    operands = {"tok": A, "NAME": ("NAME",), "rule": ("rule", "sub"), "gseq": ("group", [Alt([A, B])]), "gch": ("group", [Alt([A, B]), Alt([C])]),
+                "opt": ("opt", A), "star": ("star", A), "plus": ("plus", A), "gather": ("gather", C, A), "pos": ("pos", A), "neg": ("neg", A),
+                "gcut": ("group", [Alt([A, ("cut",), B]), Alt([A])]), "plusg": ("plus", ("group", [Alt([A, B])]))}
+    nullable = {"opt", "star", "pos", "neg"}
+    falsy_ok = {"opt", "star"}
+    ops = {"opt": lambda o: ("opt", o), "star": lambda o: ("star", o), "plus": lambda o: ("plus", o), "pos": lambda o: ("pos", o), "neg": lambda o: ("neg", o),
+           "gel": lambda o: ("gather", C, o), "gsep": lambda o: ("gather", o, B), "forced": lambda o: ("forced", o), "group": lambda o: ("group", [Alt([o])])}
+    rest = Alt([n("r", ("plus", ("group", [Alt([A]), Alt([B]), Alt([C])])))], "('rest', len(r))")
+    for on, op in ops.items():
+        for dn, d in operands.items():
+            if on in ("star", "plus", "gel") and dn in nullable:
+                continue
+            if on in ("pos", "neg", "forced") and dn in falsy_ok:
+                continue
+            if on == "forced" and dn not in ("tok", "gseq", "gch", "gcut"):
+                continue    # the notation forces quoted TOKENS and groups (visit_Forced, as upstream pegen: anything else is not in the notation)
+            if on == "gsep" and dn in ("pos", "neg", "opt", "star"):
+                continue    # the generator refuses a separator whose call is not a plain call (AssertionError at generation time: no parser to judge)
+            it = op(d)
+            if on in ("pos", "neg") or (on == "group" and dn in ("pos", "neg")):
+                first = Alt([it, n("t", ("NAME",))], "('L', t)")
+            else:
+                first = Alt([n("x", it), n("t", ("opt", ("NAME",)))], "('X', x, t)")
+            rules = {"top": Rule([first, rest] if on != "forced" else [Alt([C, it, n("t", ("opt", ("NAME",)))], "('F', t)"), rest])}   # forced items cannot be named
+            if dn == "rule":
+                rules["sub"] = sub
+            P[f"op_{on}_{dn}"] = rules
+    return P
+
+
 def random_pool(rng, count):
     P = {}
     toks = [A, B, C]
@@ -94,7 +129,7 @@ def random_pool(rng, count):
         if r < 0.78:
             return ("gather", rng.choice(toks), rng.choice(toks))
         if r < 0.84:
-            return (rng.choice(["pos", "neg"]), rng.choice(toks))
+            return (rng.choice(["pos", "neg"]), rng.choice(toks + [("plus", rng.choice(toks)), ("neg", rng.choice(toks)), ("group", [Alt([rng.choice(toks), rng.choice(toks)])])]))
         if r < 0.92:
             return ("group", [Alt([rng.choice(toks) for _ in range(rng.randint(1, 2))]) for _ in range(rng.randint(1, 2))])
         return ("rule", "sub")
@@ -118,6 +153,9 @@ def random_pool(rng, count):
     return P
 
 
+same_value = oracles2.c17_same
+
+
 def norm(v, model):
     """comparable form of an action value: tokens become their strings"""
     v = conc_copy(v, model)
@@ -138,6 +176,7 @@ def main():
     chk.assumptions += ["grammars are enumerated / seeded-random (stated as sampled); inputs are solver-decided within the length bound",
                         "reference semantics: PEG with pegen's truthiness convention, cut = commit within the rule's alternatives, seed-growing left recursion (Warth et al.)"]
     pool = systematic_pool()
+    pool.update(operator_product())
     pool.update(random_pool(chk.rng, 60 if chk.quick else 300))
     built = []
     for name, g in pool.items():
@@ -193,7 +232,7 @@ def main():
         rn = (ref[0],) + ((norm(ref[1], m), ref[2]) if ref[0] == "ok" else ())
         rec["outcome"] = got[0]
         rec["validated"] = 1
-        if gn != rn:
+        if not same_value(gn, rn):
             # confirm on the unmodified runtime with concrete tokens
             v2 = c17_concrete(rp.real, cls_real, g, w)
             if v2 is not None:
